@@ -562,6 +562,14 @@ func (x *Exec) enter(st *State, fr *Frame, to *ssa.BasicBlock) bool {
 			}
 		}
 	}
+	if _, isHead := li.body[to]; isHead {
+		nh := map[*ssa.BasicBlock]*loopSnap{}
+		for k, v := range fr.loopHeadSnap {
+			nh[k] = v
+		}
+		nh[to] = &loopSnap{view: x.view(st), cells: append([]Val(nil), st.cells...)}
+		fr.loopHeadSnap = nh
+	}
 	fr.prev = from
 	fr.block = to
 	fr.pc = 0
@@ -883,6 +891,15 @@ func (x *Exec) step(st *State, fr *Frame, instr ssa.Instruction) {
 			lo = intLit(-1)
 		}
 		x.assume(tAnd(app(sBool, "<=", lo, idx), app(sBool, "<", idx, intLit(int64(n)))))
+		for k, sst := range i.States {
+			if sst.Dir == types.SendOnly && x.fc != nil && len(x.fc.Calls) > 0 {
+				// a send that happens if this case is chosen
+				x.sess.Push()
+				x.assume(tEq(idx, intLit(int64(k))))
+				x.callSite(st, fr, "send", "chan-send", []Val{x.val(st, fr, sst.Chan), x.val(st, fr, sst.Send)}, nil, "before", i)
+				x.popScope()
+			}
+		}
 		tup := Val{K: KTuple, Typ: i.Type(), Fs: []Val{scalar(idx, nil), scalar(x.fresh("recvok", sBool), nil)}}
 		tt := i.Type().(*types.Tuple)
 		for k := 2; k < tt.Len(); k++ {
